@@ -28,13 +28,15 @@ ASSUMPTIONS = [
     "any exception counts as rejection of a negative variant (types are judged in C14)",
 ]
 REQUIRED_CLASSES = ["sections>=2", "page-crossing", "neg.gap-last-line", "neg.gap", "neg.nonzero-start", "neg.unknown-tagtype", "neg.no-bf3update", "debug-version",
-                    "compat-section", "ignored-section", "select-filter", "memoryimage.direct", "metamorphic", "neg.overlap"]
+                    "compat-section", "ignored-section", "select-filter", "memoryimage.direct", "metamorphic", "neg.overlap", "route=path"]
 
 B3 = sut.B3
 Bf2BinLine = B3.Bf2BinLine
 
 
-def _import(text, enforce=True):
+def _import(text, enforce=True, path=False):
+    if path:
+        return sut.Bf3File.bf2_import(sut.source_for(text, "path"), enforce_bf3_compatibility=enforce)
     return sut.Bf3File.bf2_import(io.StringIO(text), enforce_bf3_compatibility=enforce)
 
 
@@ -114,8 +116,10 @@ def check_import(case, rec):
     if nt:
         rec.nt()
     text = BM.render(af, case.get("style", 0))
+    use_path = case.get("style", 0) >= 2 and text.isascii()
+    rec.cls("route=path" if use_path else "route=stream")
     try:
-        f = _import(text)
+        f = _import(text, path=use_path)
     except Exception as e:
         raise Violation("bf2_import rejected a well-formed BF2 file: %s: %s\n%s" % (type(e).__name__, e, text[:1500]))
     want = BM.expected(af)
